@@ -52,6 +52,8 @@ def classify_death(rc, stderr_text, stdout_tail):
             return 'death-terminate', line.strip()
         if line.startswith('DEATH no-progress'):
             return 'no-progress', 'the operation consumed its CPU budget without finishing (spin on a dead stream?)'
+    if rc == 73:
+        return 'infra-unmodelled', 'the code under test used a synchronisation primitive the thread simulator does not model (see stdout)'
     if rc == 74:
         return 'no-progress', 'the operation consumed its CPU budget without finishing'
     if rc == 78:
